@@ -98,6 +98,11 @@ def run(P, R, tier):
             want = 1 if (is_data and is_mean) else -1
             R.check(inv and s_ == want and abs(_pol.coef_value(a) - 0.5) < 1e-12, "POL.lwl", _f.key, f"quadratic-form term {label}", "-1/2 · (x - mu)^2 / var expanded", "the Mahalanobis term does not enter the weighted log-likelihood as -1/2 · (x - mu)^2 / var")
     R.floor("POL.lwl terms", n_pol, 5)
+    from ..engines import proto as _prd
+    for k_ in ('gmm:log_weighted_likelihood', 'gmm:reduce_loglikelihood', 'gmm:log_likelihood'):
+        _prd.check_return_deps(P, R, k_, pattern=r'^(data|machine|log_weighted_likelihoods)$')
+    from ..engines import proto as _prs
+    _prs.check_reduction_siblings(P, R, ['gmm'])
 
 
 EXPLANATION += " Also (POL): the return value of log_weighted_likelihood is expanded into signed monomials; the log-weights enter with +1, the cached normaliser with -1/2, the quadratic form as -1/2 (x - mu)^2 / var (x^2 and mu^2 negative, the cross term positive, the variance in the denominator)."
